@@ -104,6 +104,9 @@ CORPUS = [
     '(assert (str.contains s t))(assert (str.contains t "a"))'
     '(assert (str.contains |q s| s_prefix))(assert (str.contains (str.++ s t) t_suffix))'
     '(assert (= (bvadd v _v) v))(check-sat)',
+    # '_' + name taken by a function with arguments
+    '(declare-const w (_ BitVec 8))(declare-fun _w ((_ BitVec 8)) (_ BitVec 8))'
+    '(assert (= (_w w) w))(check-sat)',
     # a top-level node with many children (binary reduction)
     '(declare-const z Int)(assert (and (> z 0) (> z 1) (> z 2) (> z 3) (> z 4)'
     ' (> z 5) (> z 6) (> z 7) (> z 8) (> z 9)))'
